@@ -2,13 +2,30 @@
 import json, os
 V = os.path.dirname(os.path.dirname(os.path.abspath(__file__)))
 BASE = "cd /repo && /venv/bin/python -m pytest -ra -q -p no:cacheprovider --timeout=900 --continue-on-collection-errors tests"
+TECH = "Coq proof over an executable Gallina model + model/implementation correspondence (vm_compute inside coqc) + independent P_impl predicate on the implementation"
+NOTE = "Trusted: Coq 8.16.1 kernel (no axioms: Print Assumptions closed), the hand-written Gallina model, the Python correspondence harness. See DESIGN.md section 4."
 CLAIMED = {
- 'C08': dict(
-   text="Coq proof (for every history of set/pop/clear/copy and every query, over unbounded name sets) that the suffix-tree model refines a finite map, that matching = exact-match-else-all-suffix-matches, and that the reported minimal selector resolves back and no shorter suffix does; model tied to /repo by a differential run of generated histories (model evaluated in coqc) plus an independent brute-force statement of the property evaluated on the implementation.",
-   note="Trusted: Coq kernel, the hand-written model coq/Model/SelectorMap.v, the Python correspondence harness (harness/props/c08.py). ASCII selectors only. No axioms.",
-   technique="Coq proof over an executable Gallina model + model/implementation correspondence (vm_compute) + independent P_impl",
-   design="5/C08"),
+ 'C01': dict(text="Coq theorems for every store, scope depth, signature shape and argument split: the overlay loop computes the longest-prefix rule, non-prefix scopes never apply, positionally supplied names are dropped, and what Python's own binding hands to the function is the caller's value / the applicable binding / the default (C01_injection). Model tied to /repo by differential runs of generated Gin-machine programs and an independent longest-prefix predicate evaluated on what the real probes received.",
+   note=NOTE + " inspect.getfullargspec / functools.wraps are not modelled.", design="5/C01"),
+ 'C02': dict(category='translation_validation', text="Executable Gallina model of the recursive-descent value parser over the real tokenizer's token stream, compared with the implementation on generated literal texts in random layouts and on near-miss texts; independent oracle ast.literal_eval on the whole text. The completeness theorem (every tree of the literal grammar in every layout parses to Python's value) is being proved (coq/Model/ParserSpec.v); until it is in Props/C02.v the level claimed is model-vs-code agreement.",
+   note=NOTE + " CPython's tokenizer and ast.literal_eval on one atom are not modelled (observed / oracle table).", design="5/C02"),
+ 'C03': dict(category='translation_validation', text="Executable Gallina model of the statement parser (bindings, macro form, blocks, four import forms, includes, selector adjacency re-check) compared with the implementation on generated statement lists rendered in two independent layouts plus a malformed stream; independent predicate: both layouts yield exactly the generated statements.",
+   note=NOTE + " CPython's tokenizer is not modelled.", design="5/C03"),
+ 'C08': dict(text="Coq proof (for every history of set/pop/clear/copy and every query, over unbounded name sets) that the suffix-tree model refines a finite map, that matching = exact-match-else-all-suffix-matches, and that the reported minimal selector resolves back and no shorter suffix does; model tied to /repo by a differential run of generated histories plus an independent brute-force statement of the property evaluated on the implementation.",
+   note=NOTE + " ASCII selectors only.", design="5/C08"),
+ 'C09': dict(text="Coq theorem C09_restored: every op of the Gin-machine language (config_scope blocks of any depth, raising bodies, scoped references, nested calls) leaves the scope stack exactly as found on both exits; composition and invalid-scope theorems. Thread half: per-thread-stack model compared with 2-4 real threads stepped by a central scheduler on generated (thorough: exhaustively enumerated) schedules, with an independent 'what the thread sees alone' predicate.",
+   note=NOTE + " Thread half is partial: atomic steps are API calls; preemption inside a step is not modelled.", design="5/C09"),
+ 'C10': dict(text="Coq theorems for every signature and marker placement: the marker never reaches the function, markers are filled in place, other arguments keep position and value, unfilled markers always raise before the body runs and the error lists them in signature order; correspondence + independent predicate on generated calls with markers; registration-time rejection checked on the implementation.",
+   note=NOTE, design="5/C10"),
+ 'C11': dict(text="Coq theorems: accept-iff for a binding, rejected bindings leave the whole state unchanged through every binding op, and the store invariant (only configurable parameters of registered configurables are ever stored) is preserved by every op over every history (side condition proved necessary); correspondence + independent accept predicate over all API paths.",
+   note=NOTE, design="5/C11"),
+ 'C12': dict(text="Coq theorems over the Gin-machine: locked => every mutation raises and changes nothing; unlock_config restores the lock on every exit path; finalize atomicity, finalize-twice, hook-conflict rejection for any two spellings, built-in hooks; correspondence on generated histories + an independent lock automaton written from the property text.",
+   note=NOTE + " finalize is modelled with an empty active scope.", design="5/C12"),
+ 'C20': dict(text="Coq theorems: clear_config is total and yields an empty store / operative record / singleton cache, an unlocked config and the same registry, and after ANY history from any registrations keeps every constant; refutation theorem for the code before the repair. Correspondence on generated histories + comparison with a freshly imported gin given the same registrations.",
+   note=NOTE, design="5/C20"),
 }
+for _k in CLAIMED:
+  CLAIMED[_k].setdefault('technique', TECH)
 NOT_YET = {}
 def main():
   props = [json.loads(l) for l in open(os.path.join(V, 'properties.jsonl'))]
